@@ -92,7 +92,10 @@ def gen_gt(rng, idx, small=True):
                 # a file whose path repeats the tail of the export root: named like the torrent, or Data/<name>
                 ln = rng.range(1, 8)
                 path = rng.choice([[name], [b"Data", name], [b"Data"]])
-                if not any(f.path == path for f in files):
+                # (never a file at a path that another file of the torrent needs as a directory: such a torrent cannot be
+                #  exported at all — `C02_run_recovered_loaded_needs_hnest`)
+                nested = lambda p, q: p[:len(q)] == q or q[:len(p)] == p
+                if not any(nested(f.path, path) for f in files):
                     files.append(TFile(ln, path, gen_content(rng, ln)))
                     continue
             ln = 0 if k == 1 else rng.range(1, 12)
@@ -100,6 +103,12 @@ def gen_gt(rng, idx, small=True):
             # components that are plain but look like traversal once trimmed or normalised are deliberate
             path = [rng.choice([b"d", b"sub", b"x y", b".. ", b". ", b" ..", b"...", b"d "]) for _ in range(depth - 1)] + [rng.choice([b"f", b"file", b"a.bin", b"\xc3\xb1", b".. f", b"f "]) + b"%d" % i + (b" " if rng.chance(1, 8) else b"")]
             files.append(TFile(ln, path, gen_content(rng, ln)))
+        # no file at a path another file needs as a directory (a torrent that cannot be exported at all)
+        kept = []
+        for f in files:
+            if f.pad or not any((not g.pad) and (f.path[:len(g.path)] == g.path or g.path[:len(f.path)] == f.path) for g in kept):
+                kept.append(f)
+        files = kept
         if all(f.pad for f in files):
             files.append(TFile(3, [b"real"], gen_content(rng, 3)))
     else:
